@@ -3,40 +3,48 @@
 (* (facts of the publication, one state per case):                             *)
 (*  space  for every RGB space the matrix derived from the published primaries   *)
 (*         and white point maps (1, 1, 1) to the white point and inverts;        *)
-(*  pair   for every ordered pair of white points (a, b) and every method the     *)
-(*         reference adaptation matrix maps white a onto white b, is the identity  *)
-(*         when a = b, and A(b -> a) A(a -> b) = I;                                *)
+(*  pair   for every pair of white points {a, b} and every method, in both orders:  *)
+(*         the reference adaptation matrix maps white a onto white b, is the        *)
+(*         identity when a = b, and A(b -> a) A(a -> b) = I (one case decides both    *)
+(*         ordered pairs (a, b) and (b, a));                                        *)
 (*  cone   the published seven-decimal inverse cone matrices are the inverses of    *)
 (*         the published cone matrices to seven decimals (this is where the          *)
 (*         Published7 tolerance of adaptation comes from);                          *)
 (*  neg    perturbed constants are told apart (no relation is vacuous).             *)
-(* Full = FALSE samples the pairs: all pairs with D65 or D50 on one side, the        *)
-(* diagonal and a ring; Full = TRUE takes all 16 x 16.                                *)
+(* Full = FALSE samples the pairs: all pairs with D65 or D50 on one side and the     *)
+(* diagonal; Full = TRUE takes all 16 x 16.                                           *)
 (* TLC computes initial states and the successors of one state sequentially, so the    *)
 (* cases hang two levels below a root (root -> group -> case): the groups are spread     *)
 (* over the workers.                                                                  *)
 EXTENDS Adapt, TLC
 
 CONSTANT Full
-VARIABLE case
+VARIABLES case, K        \* K: the inverse cone matrices, computed once (TLC re-evaluates definitions at every use)
 
 NearSeq(a, b, bits) == Len(a) = Len(b) /\ \A i \in DOMAIN a : FxNear(a[i], b[i], bits, 200)
-Tight == 88        \* Fx truncation (2^-104 per operation) and the Newton quotient (2^-96 relative) on entries below 8
+Tight == 86        \* Fx truncation (2^-104 per operation) and the Newton reciprocal (2^-96 relative) on entries below 8
 SpaceTight == 86   \* ProPhoto's blue primary has y = 0.0001 (a column of magnitude 10^4 in the primaries matrix): 2^-89 there
 
 NW == Len(WhiteNames)
 AllPairs == {<<i, j>> : i \in 1..NW, j \in 1..NW}
 Hub(i) == WhiteNames[i] \in {"D65", "D50"}
-Pairs == IF Full THEN AllPairs
-         ELSE {p \in AllPairs : Hub(p[1]) \/ Hub(p[2]) \/ p[1] = p[2] \/ p[2] = (p[1] % NW) + 1}
+OrderedPairs == IF Full THEN AllPairs
+                ELSE {p \in AllPairs : Hub(p[1]) \/ Hub(p[2]) \/ p[1] = p[2]}
+(* one case per unordered pair: <<i, j>> with i <= j stands for (i, j) and (j, i) *)
+Pairs == {p \in AllPairs : p[1] <= p[2] /\ (p \in OrderedPairs \/ <<p[2], p[1]>> \in OrderedPairs)}
 
-MiscCases == {<<"space", SpaceNames[i], "", "">> : i \in DOMAIN SpaceNames}
-             \cup {<<"cone", MethodNames[k], "", "">> : k \in DOMAIN MethodNames}
-             \cup {<<"neg", n, "", "">> : n \in {"white", "whitepair", "space", "method", "digit"}}
-PairCases(i) == {<<"pair", WhiteNames[p[1]], WhiteNames[p[2]], MethodNames[k]>> : p \in {q \in Pairs : q[1] = i}, k \in DOMAIN MethodNames}
+MiscSeq == [i \in DOMAIN SpaceNames |-> <<"space", SpaceNames[i], "", "">>]
+           \o [k \in DOMAIN MethodNames |-> <<"cone", MethodNames[k], "", "">>]
+           \o << <<"neg", "white", "", "">>, <<"neg", "whitepair", "", "">>, <<"neg", "space", "", "">>,
+                 <<"neg", "method", "", "">>, <<"neg", "digit", "", "">> >>
+(* the cases are dealt over NG groups by index, so that the workers get equal shares *)
+NG == 12
 Root == <<"root", "", "", "">>
-Groups == {<<"group", "misc", "", "">>} \cup {<<"group", WhiteNames[i], "", "">> : i \in 1..NW}
-CasesOf(g) == IF g = "misc" THEN MiscCases ELSE UNION {PairCases(i) : i \in {j \in 1..NW : WhiteNames[j] = g}}
+Groups == {<<"group", ToString(g), "", "">> : g \in 0..(NG - 1)}
+CasesOfGroup(g) ==
+  {MiscSeq[n] : n \in {x \in DOMAIN MiscSeq : x % NG = g}}
+  \cup {<<"pair", WhiteNames[t[1]], WhiteNames[t[2]], MethodNames[t[3]]>> :
+           t \in {<<u[1][1], u[1][2], u[2]>> : u \in {v \in Pairs \X DOMAIN MethodNames : (v[1][1] * 7 + v[1][2] * 3 + v[2]) % NG = g}}}
 
 SpaceOK(sp) ==
   LET m == RefRgbToXyz(sp, SpaceWhite(sp))
@@ -44,17 +52,22 @@ SpaceOK(sp) ==
      /\ NearSeq(MatMul3T(m, Inv3T(m)), I3, Tight)
      /\ NearSeq(MatMul3T(Inv3T(m), m), I3, Tight)
 
+MethodSet == {MethodNames[k] : k \in DOMAIN MethodNames}
+KInit == [minv |-> [m \in MethodSet |-> Inv3T(Cone(m))]]
 PairOK(a, b, mth) ==
   LET M == Cone(mth)
-      Minv == Inv3T(M)
+      Minv == K.minv[mth]
       ab == AdaptRef(WP(a), WP(b), M, Minv)
       ba == AdaptRef(WP(b), WP(a), M, Minv)
   IN /\ NearSeq(FxMatVec(ab, WP(a)), WP(b), Tight)
-     /\ (a = b => NearSeq(ab, I3, Tight))
+     /\ NearSeq(FxMatVec(ba, WP(b)), WP(a), Tight)
+     /\ (a = b => NearSeq(ab, I3, Tight) /\ NearSeq(ba, I3, Tight))
      /\ NearSeq(MatMul3T(ba, ab), I3, Tight)
+     /\ NearSeq(MatMul3T(ab, ba), I3, Tight)
 
 ConeOK(mth) ==
-  /\ NearSeq(ConeInvPublished(mth), Inv3T(Cone(mth)), 24)              \* 5e-8: correctly rounded to seven decimals
+  /\ NearSeq(K.minv[mth], T9(Inv3(Cone(mth))), Tight)                  \* the fast inverse is ColourMath's inverse
+  /\ NearSeq(ConeInvPublished(mth), K.minv[mth], 24)                   \* 5e-8: correctly rounded to seven decimals
   /\ NearSeq(MatMul3T(ConeInvPublished(mth), Cone(mth)), I3, 21)       \* hence only Published7 close to the identity
   /\ (mth # "xyzscaling" => ~NearSeq(MatMul3T(ConeInvPublished(mth), Cone(mth)), I3, 40))
 
@@ -65,7 +78,7 @@ NegOK(n) ==
          ~NearSeq(FxMatVec(Adapt("D50", "D65", "bradford"), WP("D65")), WP("D50"), 10)
     [] n = "space" ->      \* Adobe RGB differs from sRGB only in the green primary: the matrices are told apart
          ~NearSeq(RefRgbToXyz("adobe", "D65"), RefRgbToXyz("srgb", "D65"), 5)
-         /\ NearSeq(RefRgbToXyz("srgb", "D65"), SrgbToXyz, 100)
+         /\ NearSeq(RefRgbToXyz("srgb", "D65"), SrgbToXyz, Tight)        \* ... and the construction is ColourMath's
     [] n = "method" ->     \* the methods differ between different white points
          ~NearSeq(Adapt("A", "D65", "bradford"), Adapt("A", "D65", "vonkries"), 6)
          /\ ~NearSeq(Adapt("A", "D65", "xyzscaling"), Adapt("A", "D65", "vonkries"), 6)
@@ -83,9 +96,10 @@ CaseOK(c) == CASE c[1] = "space" -> SpaceOK(c[2])
                [] c[1] = "neg" -> NegOK(c[2])
                [] OTHER -> TRUE                      \* root and group states carry no claim
 
-Init == case = Root
-Next == \/ case = Root /\ case' \in Groups
-        \/ case[1] = "group" /\ case' \in CasesOf(case[2])
-Spec == Init /\ [][Next]_case
+Init == case = Root /\ K = KInit
+Next == /\ \/ case = Root /\ case' \in Groups
+           \/ case[1] = "group" /\ \E g \in 0..(NG - 1) : ToString(g) = case[2] /\ case' \in CasesOfGroup(g)
+        /\ UNCHANGED K
+Spec == Init /\ [][Next]_<<case, K>>
 Holds == IF CaseOK(case) THEN TRUE ELSE PrintT(<<"case fails", case>>) /\ FALSE
 =============================================================================
